@@ -6,6 +6,7 @@ import (
 	"encoding/json"
 	"fmt"
 	"math/big"
+	"os"
 	"time"
 
 	"gitlab.com/aquachain/aquachain/aqua"
@@ -33,6 +34,9 @@ var svcConfig *params.ChainConfig
 
 func runService(c *fw.Ctx) {
 	const chainID = 777016
+	// the node locks <HOME>/.aquachain/<chain name>/LOCK whatever its DataDir is:
+	// every child gets its own HOME so the two service nodes do not collide
+	os.Setenv("HOME", c.Dir)
 	if svcConfig == nil {
 		cfg := *params.TestChainConfig
 		cfg.ChainId = new(big.Int).SetUint64(chainID)
@@ -190,4 +194,3 @@ func serviceQuery(be filters.Backend, client *rpcclient.Client, q *query) ([]*ty
 	return out, nil
 }
 
-var _ = fw.Register
